@@ -67,7 +67,7 @@ pub struct TextFault {
     pub text: String,
 }
 
-pub const TEXT_KINDS: &[&str] = &["T-TRUNC", "T-DELCH", "T-INSCH", "T-DELTOK", "T-DUPTOK", "T-SWAPTOK", "T-INSTOK", "T-NUM", "T-REPTOK", "T-REFNAME", "T-FROMNAME"];
+pub const TEXT_KINDS: &[&str] = &["T-TRUNC", "T-DELCH", "T-INSCH", "T-DELTOK", "T-DUPTOK", "T-SWAPTOK", "T-INSTOK", "T-NUM", "T-REPTOK", "T-REFNAME", "T-FROMNAME", "T-PROSE"];
 
 fn char_boundary_at(text: &str, mut i: usize) -> usize {
     i = i.min(text.len());
@@ -148,6 +148,29 @@ pub fn apply_text_fault(kind: &'static str, text: &mut String, l: &mut Lane<'_>)
             text.insert_str(at, &format!("{t} "));
             Some(TextFault { kind, text: format!("insert token {:?} at {at}", t) })
         }
+        "T-PROSE" => {
+            // pasted prose / a comment that lost its `--`: ONE long token (no ASCII white space) with
+            // multi-byte characters at drawn byte offsets - what error messages that quote or abbreviate the
+            // offending token have to cope with
+            const MB: &[&str] = &["ä", "€", "\u{a0}", "本", "“", "\u{1f600}", "ß"];
+            let mut t = String::new();
+            for _ in 0..1 + l.draw(3) {
+                for _ in 0..l.draw(48) {
+                    t.push((b'a' + l.draw(26) as u8) as char);
+                }
+                t.push_str(MB[l.draw(MB.len() as u64) as usize]);
+            }
+            for _ in 0..l.draw(8) {
+                t.push((b'a' + l.draw(26) as u8) as char);
+            }
+            let (s, e) = if sp.is_empty() { (0, 0) } else { sp[l.draw(sp.len() as u64) as usize] };
+            if l.draw(2) == 0 && e > s {
+                text.replace_range(s..e, &t);
+            } else {
+                text.insert_str(s, &format!("{t} "));
+            }
+            Some(TextFault { kind, text: format!("long token with multi-byte characters {:?} ({} bytes) at {s}", t, t.len()) })
+        }
         "T-REPTOK" => {
             if sp.is_empty() {
                 return None;
@@ -211,6 +234,8 @@ pub struct StageReach {
     pub resolved: bool,
     pub rust: bool,
     pub protobuf: bool,
+    /// error values that were formatted with Display and Debug without a panic
+    pub errors_formatted: usize,
 }
 
 /// pushes a set of module texts through the whole front end; Err = panic that is not sanctioned
@@ -232,7 +257,14 @@ pub fn pipeline(texts: &[String]) -> Result<StageReach, (String, crate::guard::P
         reach.tokens += tokens.len();
         let model = match guard(|| Model::try_from(tokens)) {
             Ok(Ok(m)) => m,
-            Ok(Err(_)) => continue,
+            Ok(Err(e)) => {
+                // "an error value carrying the offending token": what a build script does with it is print it
+                if let Err(pi) = guard(|| (format!("{e}"), format!("{e:?}"))) {
+                    return Err(("parse-error-display".into(), pi));
+                }
+                reach.errors_formatted += 1;
+                continue;
+            }
             Err(pi) => return Err(("parse".into(), pi)),
         };
         reach.parsed += 1;
@@ -258,7 +290,12 @@ pub fn pipeline(texts: &[String]) -> Result<StageReach, (String, crate::guard::P
                 }
                 reach.resolved = true;
             }
-            Ok(Err(_)) => {}
+            Ok(Err(e)) => {
+                if let Err(pi) = guard(|| (format!("{e}"), format!("{e:?}"))) {
+                    return Err(("resolve-error-display".into(), pi));
+                }
+                reach.errors_formatted += 1;
+            }
             Err(pi) => return Err(("try_resolve".into(), pi)),
         }
     }
@@ -280,7 +317,12 @@ pub fn pipeline(texts: &[String]) -> Result<StageReach, (String, crate::guard::P
                 }
             }
         }
-        Ok(Err(_)) => {}
+        Ok(Err(e)) => {
+            if let Err(pi) = guard(|| (format!("{e}"), format!("{e:?}"))) {
+                return Err(("resolve-error-display".into(), pi));
+            }
+            reach.errors_formatted += 1;
+        }
         Err(pi) => return Err(("try_resolve_all".into(), pi)),
     }
     Ok(reach)
@@ -325,6 +367,7 @@ fn run_pipeline_checked(ctx: &mut RunCtx<'_>, texts: &[String], what: &str) -> O
             if reach.protobuf {
                 ctx.counters.inc("c14.reached.to_protobuf");
             }
+            ctx.counters.add("c14.error_values_formatted", reach.errors_formatted as u64);
             let d = (reach.tokens as u64) << 8 | (reach.parsed as u64) << 4 | (reach.resolved as u64) << 2 | (reach.rust as u64) << 1 | reach.protobuf as u64;
             ctx.log.ev("F", "pipeline", d, || format!("{what}: {:?}", reach));
             None
